@@ -260,6 +260,136 @@ def load_cells(path):
 
 
 # ----------------------------------------------------------------------------------------------
+# prefix stores: a store whose n_batches is smaller than the number of batches in the file
+# (python-side differential stream, clause `prefix_store_write`; no Coq side)
+# ----------------------------------------------------------------------------------------------
+
+def run_prefix(case, fname):
+    """Runs in a forked child.  Builds a file with len(case['init']) batches through an ordinary
+    store A, obtains a store B over the same file that exposes only the first case['k'] batches
+    (variant 'nbatches_arg': NpyStore(file_or_array, batch_size, n_batches=k); variant
+    'pickle_grow': B is unpickled from a pickle of A taken when A had k batches, A having appended
+    the rest and flushed in the meantime), then applies case['ops'] to B.  Returns the observations:
+    entry 0 = right after B exists, entry t = after operation t."""
+    import elfi.store as st
+    bs, k, init = case['bs'], case['k'], case['init']
+    A = st.NpyStore(fname, bs)
+    if case['variant'] == 'nbatches_arg':
+        for i, v in enumerate(init):
+            A[i] = make_batch(case, v)
+        A.close() if case['orig'] == 'close' else A.flush()
+        target = st.NpyArray(fname) if case['via'] == 'array' else fname
+        if case['via'] == 'positional':
+            B = st.NpyStore(target, bs, k)
+        else:
+            B = st.NpyStore(target, bs, n_batches=k)
+    elif case['variant'] == 'pickle_grow':
+        for i in range(k):
+            A[i] = make_batch(case, init[i])
+        blob = pickle.dumps(A)
+        for i in range(k, len(init)):
+            A[i] = make_batch(case, init[i])
+        A.close() if case['orig'] == 'close' else A.flush()
+        B = pickle.loads(blob)
+    else:
+        raise RuntimeError('unknown prefix variant %r' % (case['variant'],))
+    _KEEP.append(A)
+    path = fname + '.npy'
+
+    def observe(err, flushlike, closed):
+        o = dict(err=err, len=len(B), load=None, batches=None, phys=None)
+        if flushlike:
+            o['load'] = [load_cells(path)]
+        if not closed:
+            try:
+                o['batches'] = [cells(np.array(B[i])) for i in range(len(B))]
+            except (IndexError, ValueError) as e:
+                o['batches'] = None
+                o['read_error'] = '%s: %s' % (type(e).__name__, e)
+            o['phys'] = len(B.array)
+        return o
+
+    obs = [observe(False, True, False)]
+    for op in case['ops']:
+        err = None
+        try:
+            kd = op[0]
+            if kd == 'set':
+                B[op[1]] = make_batch(case, op[3], op[2])
+            elif kd == 'del':
+                del B[op[1]]
+            elif kd == 'clear':
+                B.clear()
+            elif kd == 'flush':
+                B.flush()
+            elif kd == 'close':
+                B.close()
+            elif kd == 'pickle':
+                old = B
+                B = pickle.loads(pickle.dumps(old))
+                old.close()
+            elif kd == 'read':
+                np.array(B[op[1]])
+            else:
+                raise RuntimeError('unknown op %r' % (op,))
+        except (IndexError, ValueError, OverflowError, FileNotFoundError) as e:
+            err = '%s: %s' % (type(e).__name__, e)
+        obs.append(observe(err, op[0] in ('flush', 'close', 'pickle'), op[0] == 'close'))
+    _KEEP.append(B)
+    return obs
+
+
+def prefix_reference(case):
+    """The in-memory sequence: a plain Python list of batches.  Entry t = after t operations."""
+    written = [cells(make_batch(case, v)) for v in case['init']]
+    ref = written[:case['k']]
+    out = [list(ref)]
+    for op in case['ops']:
+        if op[0] == 'set':
+            b = cells(make_batch(case, op[3]))
+            if op[1] == len(ref):
+                ref = ref + [b]
+            else:
+                ref = ref[:op[1]] + [b] + ref[op[1] + 1:]
+        elif op[0] == 'del':
+            ref = ref[:-1]
+        elif op[0] == 'clear':
+            ref = []
+        out.append(list(ref))
+    return out
+
+
+def prefix_failures(case, obs):
+    """Compare the observations of run_prefix with the list-of-batches reference."""
+    refs = prefix_reference(case)
+    ops = [['open']] + case['ops']
+    if len(obs) != len(refs):
+        return ['%d observations for %d steps' % (len(obs), len(refs))]
+    for t, (op, o, ref) in enumerate(zip(ops, obs, refs)):
+        where = 'step %d %r' % (t, op if op[0] != 'set' else op[:2])
+        if o['err']:
+            return ['%s raised %s (every operation of this stream is valid for the in-memory sequence)' % (where, o['err'])]
+        if o['len'] != len(ref):
+            return ['%s: len(store) = %d, in-memory sequence has %d batches' % (where, o['len'], len(ref))]
+        if op[0] != 'close':
+            if o['batches'] is None:
+                return ['%s: reading store[0..%d) raised %s' % (where, o['len'], o.get('read_error'))]
+            for i, (got, want) in enumerate(zip(o['batches'], ref)):
+                if got != want:
+                    return ['%s: store[%d] = %r, in-memory sequence has %r' % (where, i, got, want)]
+        if o['load'] is not None:
+            flat = [r for b in ref for r in b]
+            got = o['load'][0]
+            if got is None:
+                return ['%s: numpy.load of the file failed' % where]
+            if got[:len(flat)] != flat:
+                i = next((j for j in range(len(flat)) if j >= len(got) or got[j] != flat[j]))
+                return ['%s: numpy.load of the file, row %d (batch %d) = %r, in-memory sequence has %r (file has %d rows)'
+                        % (where, i, i // case['bs'], got[i] if i < len(got) else None, flat[i], len(got))]
+    return []
+
+
+# ----------------------------------------------------------------------------------------------
 # Coq printers
 # ----------------------------------------------------------------------------------------------
 
@@ -397,6 +527,57 @@ class C06(PropCheck):
             ops.append(['close'])
         return case
 
+    def gen_prefix(self, variant=None):
+        """One scenario of the prefix-store stream: a file with len(init) batches, a store exposing
+        the first k < len(init) of them, a write at index k, then further valid operations."""
+        r = self.rng
+        case = dict(kind='prefix', dtype=r.choice(DTYPES), rowshape=list(r.choice(SHAPES)), bs=r.randint(1, 4),
+                    variant=variant or r.choice(['nbatches_arg', 'pickle_grow']), orig=r.choice(['close', 'flush']))
+        if case['variant'] == 'nbatches_arg':
+            case['via'] = r.choice(['file', 'array', 'positional'])
+        k = r.choice([0, 1, 1, 2, 2, 3])
+        extra = r.choice([1, 1, 2, 2, 3])
+        nxt = [1]
+
+        def vals():
+            v = list(range(nxt[0], nxt[0] + case['bs']))
+            nxt[0] += case['bs']
+            return v
+        case['k'] = k
+        case['init'] = [vals() for _ in range(k + extra)]
+        ops = case['ops'] = [['set', k, 'ok', vals()]]       # the write at index n_batches
+        nb = k + 1
+        first = r.choice(['append', 'over', 'del', 'flush', None, None])   # what directly follows the write
+        n = r.randint(2, 8)
+        weights = [('append', 30), ('over', 18), ('del', 16), ('flush', 10), ('pickle', 7), ('read', 5), ('clear', 3)]
+        while len(ops) < n:
+            kd = first or r.choices([w[0] for w in weights], [w[1] for w in weights])[0]
+            first = None
+            if kd == 'append':
+                ops.append(['set', nb, 'ok', vals()])
+                nb += 1
+            elif kd == 'over':
+                if nb == 0:
+                    continue
+                ops.append(['set', r.randrange(nb), 'ok', vals()])
+            elif kd == 'del':
+                if nb == 0:
+                    continue
+                ops.append(['del', nb - 1])
+                nb -= 1
+            elif kd == 'read':
+                if nb == 0:
+                    continue
+                ops.append(['read', r.randrange(nb)])
+            elif kd == 'clear':
+                ops.append(['clear'])
+                nb = 0
+            else:
+                ops.append([kd])
+            self.bump('prefix_op=' + kd)
+        ops.append([r.choice(['flush', 'flush', 'close'])])
+        return case
+
     def generate(self):
         n = 60 if self.tier == 'quick' else 700
         # (the two defect histories found while building this check live in corpus/C06 and run first)
@@ -411,6 +592,26 @@ class C06(PropCheck):
             self.bump('rowshape=' + str(tuple(case['rowshape'])))
             self.bump('bs=%d' % case['bs'])
             yield case
+        # prefix stores (n_batches < batches in the file): python-side differential stream.  Generated
+        # after the histories above so that those stay the same for a given seed.
+        A, B, C, X, Y = [1, 2], [3, 4], [5, 6], [7, 8], [9, 10]
+        fixed = [
+            dict(base, kind='prefix', variant='nbatches_arg', via='file', orig='close', k=1, init=[A, B, C],
+                 ops=[['set', 1, 'ok', X], ['flush']]),
+            dict(base, kind='prefix', variant='pickle_grow', orig='flush', k=1, init=[A, B, C],
+                 ops=[['set', 1, 'ok', X], ['flush'], ['set', 2, 'ok', Y], ['set', 0, 'ok', A], ['del', 2], ['del', 1],
+                      ['set', 1, 'ok', B], ['close']]),
+            dict(base, kind='prefix', variant='nbatches_arg', via='array', orig='flush', k=0, init=[A, B],
+                 ops=[['set', 0, 'ok', X], ['set', 1, 'ok', Y], ['set', 2, 'ok', C], ['flush']]),
+        ]
+        m = 40 if self.tier == 'quick' else 500
+        for i in range(m):
+            case = fixed[i] if i < len(fixed) else self.gen_prefix(['nbatches_arg', 'pickle_grow'][i % 2])
+            self.bump('stream=prefix')
+            self.bump('prefix_variant=' + case['variant'] + ('/' + case['via'] if 'via' in case else '') + '/orig-' + case['orig'])
+            self.bump('prefix_k=%d' % case['k'])
+            self.bump('prefix_tail=%d' % (len(case['init']) - case['k']))
+            yield case
 
     # -- implementation ------------------------------------------------------------------------
     _ctr = 0
@@ -419,10 +620,19 @@ class C06(PropCheck):
         C06._ctr += 1
         d = os.path.join(WORK, 'C06', 'files')
         os.makedirs(d, exist_ok=True)
-        return os.path.join(d, 'a%d' % C06._ctr)
+        return os.path.join(d, 'a%d_%d' % (os.getpid(), C06._ctr))
 
     def run_impl(self, case):
         import elfi.store  # noqa: imported once in the parent, the forked children only patch their copy
+        if case.get('kind') == 'prefix':
+            f0 = self.fresh_name()
+            try:
+                obs = in_child(lambda: run_prefix(case, f0))
+                # the comparison with the list-of-batches reference is stored with the output so that the
+                # replay file shows the first difference; py_check reports one clause per variant
+                return dict(prefix_obs=obs, prefix_reference=prefix_reference(case), prefix_diff=prefix_failures(case, obs))
+            finally:
+                os.path.exists(f0 + '.npy') and os.remove(f0 + '.npy')
         f1 = self.fresh_name()
         logs_obs, obs = in_child(lambda: run_history(case, None, True, f1))
         os.path.exists(f1 + '.npy') and os.remove(f1 + '.npy')
@@ -441,6 +651,12 @@ class C06(PropCheck):
         return dict(logs=logs, logs_obs=logs_obs, obs=obs, crash=crash, final=final)
 
     def py_check(self, case, out):
+        if case.get('kind') == 'prefix':
+            if prefix_failures(case, out['prefix_obs']):
+                return [('prefix_store_write', 'a store with n_batches smaller than the number of batches in the file (variant %s) '
+                         'does not report the in-memory sequence after a write at index n_batches and the operations that follow; '
+                         'first difference: see prefix_diff in impl_output' % case['variant'])]
+            return []
         bad = [e for l in out['logs'] + out['logs_obs'] for e in l if c_lop(e) is None]
         if bad:
             return [('file_ops_recognised', 'the store issued a file operation outside the modelled repertoire: %r' % (bad[:3],))]
@@ -449,6 +665,10 @@ class C06(PropCheck):
         return []
 
     def nontrivial(self, case, out):
+        if case.get('kind') == 'prefix':
+            # the file holds more batches than the store exposes and the write at index n_batches was carried out
+            ok = len(case['init']) > case['k'] and case['ops'][0][:2] == ['set', case['k']] and not out['prefix_obs'][1]['err']
+            return json.dumps(case, sort_keys=True) if ok else None
         ops = case['ops']
         fl = [i for i, o in enumerate(ops) if o[0] in ('flush', 'reopen', 'pickle')]
         if not fl or len(out['crash']) < 10:
@@ -458,6 +678,8 @@ class C06(PropCheck):
         return json.dumps(case, sort_keys=True)
 
     def to_coq(self, case, out):
+        if case.get('kind') == 'prefix':
+            return None          # python-side clause only (the Coq model starts every store at n_batches = rows / batch_size)
         if any(c_lop(e) is None for l in out['logs'] + out['logs_obs'] for e in l):
             return None
         logs, logs_obs = out['logs'], out['logs_obs']
